@@ -10,6 +10,9 @@ from ..script import Case
 from ..shadow import decode_out
 
 
+ZEROS32_DIG = "32:" + __import__("hashlib").sha256(bytes(32)).hexdigest()[:16]
+
+
 class CheckC06(core.Check):
     id = "C06"
     level = "fault_enumeration"
@@ -121,7 +124,7 @@ class CheckC06(core.Check):
                         r.stats["identical_repeats"] += 1
                     else:
                         seen[k] = cur + ("%s %s" % (e.op, e.label),)
-                    if n == 2**64 - 1:
+                    if n == 2**64 - 1 and cur != ("-", ZEROS32_DIG):
                         r.foreign_dev("C09", "reserved nonce used to encrypt")
                     ks = kv.get("ks", "-")
                     if ks != "-":
@@ -144,7 +147,7 @@ class CheckC06(core.Check):
                         # REKEY is an AEAD encryption too: of 32 zero bytes, under the old key and the nonce it really consumed
                         r.stats["rekey_nonces_identified"] += 1
                         k = (kv["old"], int(used))
-                        cur = ("-", "zeros32")
+                        cur = ("-", ZEROS32_DIG)  # the same representation an ordinary enc event of that input has
                         if k in seen and seen[k][:2] != cur:
                             prev = seen[k]
                             r.viol(
